@@ -63,6 +63,24 @@ func specs() []*Spec {
 			Rule:  "E1 (deviation = number of bad entries): batch length n in {0..9,62..69,126..131,192,193,200} x 6 option sets (3 variants x default/ZIP-215); level 0: all-good x 5 entropy streams (2 DRBG, zero, 0xff, counter); level 1: 15 bad kinds (wrong message, R/S/key bit flip, S+L, valid S in [2^252,L), small-order key/R, undecodable key/R, key 31/nil, signature 63/nil, bad pre-hash or nil message) at every position (n<=9) or at interesting positions {0..3,61..67,125..131,n-4..n-1}; level 2: position pairs x kind pairs (n<=8 all pairs; larger n interesting pairs); thorough adds level 3 for n<=8; unsupported hash selector. E2 (chunk sequences): all sequences of <= 3 full chunks over 7 chunk kinds (fast path, S>=L without fallback, fallback by bad signature / malformed key at last slot / small-order R at slot 0 / bad pre-hash, early break by short signature) x remainder 0..3 x remainder kind; last chunk compared with the same chunk as first chunk of a fresh call. Oracle: per entry well-formedness AND ref.Verify == implementation's single verification == batch entry; summary == AND; len(valid)==n; err==nil. Invalid entries only under DRBG entropy.",
 			Assume: append(trusted, "when an entry is invalid the statement allows failure with probability < 2^-120 over the entropy stream: DRBG streams (seeded by VERIF_SEED) are used as fixed alphabet members"),
 		},
+		{
+			ID:    "C11",
+			Units: []Unit{{Pkg: "extra/x25519", Job: "C11", Quick: []string{"default", "noasm", "force32bit"}, Thorough: allCfg}},
+			Rule:  "E1 enumeration, fast path: nibble-pattern scalar alphabet NIB (every one of 16 digit values at each of 64 radix-16 positions over fills {0,7,8,9,15}; runs of 7/8/9/15 of every length at every start; quick: reduced fills/values/runs), all 8 low-3-bit x 4 top-2-bit patterns on 3 bases, boundary scalars (0,1,L-1,L,L+1,8L,2^254,2^255-8,2^255-1,2^255,2^256-1,...), 64 clamped secret scalars: X25519(s,Basepoint) == ScalarBaseMult == ScalarMult(s,9) == X25519(s,copy of 9) == RFC 7748 ladder of the model (== crypto/ecdh where it accepts the scalar). Generic path: 7 low-order u values (+p, bit 255 set), u in 2..20, 2^255-20..2^255-1, 2^k, 2^k-1, 16 hash-derived u x 4 scalars: value == model, error and nil output iff the result is all-zero. Chains of 40 iterated calls. Lengths are covered by C13.",
+			Assume: trusted,
+		},
+		{
+			ID:    "C12",
+			Units: []Unit{{Pkg: "extra/x25519", Job: "C12", Quick: []string{"default", "force32bit"}, Thorough: []string{"default", "force32bit", "386"}}},
+			Rule:  "E1 enumeration: seeds LE32(0..n-1)+0xff..ff (quick 64, thorough 4096): X25519(EdPrivateKeyToX25519(k), Basepoint) == EdPublicKeyToX25519(k.Public()) == model (ladder and Edwards map both), private conversion == clamp(SHA-512(seed)[:32]); public-key strings: every y in [0,2^13) (thorough 2^16) x sign, the 2^9 (2^12) largest 255-bit y (includes all 19 y >= p), 2^k and 2^k+-1, p+-{0,1,2}: result == canonical (1+y)/(1-y), zero for y = 1, failure flag exactly for undecodable strings. non-trivial = decodable string or seed case.",
+			Assume: trusted,
+		},
+		{
+			ID:    "C18",
+			Units: []Unit{{Pkg: "internal/curve25519", Job: "C18", Quick: layoutCfg, Thorough: layoutCfg}},
+			Rule:  "E1 enumeration on both limb layouts (default 5x51, force32bit 10x25.5, GOARCH=386): class R = full product over all limbs of a per-limb alphabet {0,mask,1,mask-1,(19)} (64-bit: 4 values quick / 5 thorough = 1024 / 3125 elements; 32-bit: 2 values = 1024 elements plus all vectors with <= 2 deviations from 3 base patterns over a 10-value alphabet) plus the representations of 0,1,p-1,p,p+1,2^255-1 and the documented multiplication worst case; Add/Sub/AddReduce/SubReduce/Mul on every ordered pair of R (dense), in-place forms; classes B1a/B1s/B2/N derived by running the real basic / after-basic / negation operations on R extremes (only the operand classes ge25519 feeds); Mul on all 25 class pairs, after-basic forms on their caller classes; Square, Neg, Copy, Contract (canonical value for every representation), Expand (bit 255 ignored) on every element of every class; SquareTimes(1,2,5,10,20,50,100), Recip, PowTwo252m3 (also in place) on subsets; SwapConditional(0/1) on all subset pairs; Expand/Contract on 2^k, 2^k+-1 and the 64 largest 255-bit strings. Oracle: exact residue via math/big plus the limb-bound postcondition of reduced outputs.",
+			Assume: []string{"math/big of the Go toolchain"},
+		},
 		// NEXT-SPEC
 		{
 			ID: "C04",
